@@ -300,6 +300,7 @@ pub mod op {
     pub const SWAP2: u8 = 0x91;
     pub const CREATE: u8 = 0xf0;
     pub const CALL: u8 = 0xf1;
+    pub const CALLCODE: u8 = 0xf2;
     pub const RETURN: u8 = 0xf3;
     pub const DELEGATECALL: u8 = 0xf4;
     pub const CREATE2: u8 = 0xf5;
@@ -662,6 +663,7 @@ pub mod kit {
         Call,
         DelegateCall,
         StaticCall,
+        CallCode,
     }
 
     /// Relay: forwards the whole calldata to `target` (CALL with callvalue / DELEGATECALL /
@@ -680,6 +682,7 @@ pub mod kit {
             CallKind::Call => a.op(op::CALLVALUE).push_addr(target).op(op::GAS).op(op::CALL),
             CallKind::DelegateCall => a.push_addr(target).op(op::GAS).op(op::DELEGATECALL),
             CallKind::StaticCall => a.push_addr(target).op(op::GAS).op(op::STATICCALL),
+            CallKind::CallCode => a.op(op::CALLVALUE).push_addr(target).op(op::GAS).op(op::CALLCODE),
         };
         if record {
             a = a.push(1).op(op::ADD).push(5).op(op::SSTORE);
